@@ -244,13 +244,17 @@ def value_cells(item):
         def build():
             import copy
             return Flow(tuple_source([('t', FIELDS, copy.deepcopy(rows))]), checkpoint('cp', checkpoint_path=root))
-        with contextlib.redirect_stdout(io.StringIO()):
-            first = build().datastream()
-            first_rows = [list(r) for r in first.res_iter][0]
-            first_desc = first.dp.descriptor
-            second = build().datastream()
-            second_rows = [list(r) for r in second.res_iter][0]
-            second_desc = second.dp.descriptor
+        try:
+            with contextlib.redirect_stdout(io.StringIO()), contextlib.redirect_stderr(io.StringIO()):
+                first = build().datastream()
+                first_rows = [list(r) for r in first.res_iter][0]
+                first_desc = first.dp.descriptor
+                second = build().datastream()
+                second_rows = [list(r) for r in second.res_iter][0]
+                second_desc = second.dp.descriptor
+        except Exception as e:
+            # values of every type the encoding claims must pass a checkpoint: a run that raises is a verdict, not a harness failure
+            return dict(cells=[], problems=['the first run / the resumed run raised %s: %s' % (type(e).__name__, str(getattr(e, 'cause', e))[:150])])
         lines = open(os.path.join(root, 'cp', 'stream.ndjson')).read().split('\n')
         written = [json.loads(l) for l in lines[1:1 + len(rows)]]
         cells = []
